@@ -1,5 +1,8 @@
 SPECIFICATION TrSpec
 CONSTANT Depth = 1000
+CONSTANT Threads = {"main", "worker"}
+CONSTANT FuncSel <- AllFuncs
+CONSTANT AssignSel <- AssignValues
 CONSTANT DebugOn = TRUE
 INVARIANT TrEmit
 INVARIANT TrInvariant
